@@ -129,8 +129,74 @@ package syncer
 //@   assigns nothing
 //@   requires p != nil
 //@ func (*Syncer).handleRPC props C11
+//@   assigns nothing
+//@   frame assumed
 //@   requires s != nil && s.cm != nil && stream != nil && origin != nil
 //@   ensures [insufficient-work] called("CmpWork") && callres("CmpWork") < 0 ==> called("ban") && !called("AddBlocks") && !called("relayV2Header") && !called("relayV2BlockOutline")
 //@   ensures [rejected-block] called("AddBlocks") && callres("AddBlocks") != nil ==> called("ban") && !called("relayV2BlockOutline")
 //@   ensures [wrong-missing] called("SendTransactions") && callres("SendTransactions", 2) == nil && !called("AddBlocks") ==> called("ban")
 //@   ensures [no-empty-set] called("AddV2PoolTransactions") ==> len(callarg("AddV2PoolTransactions", 2)) > 0
+//
+// ---------------------------------------------------------------------------
+// C18: limits.
+//
+// Per-subnet in-flight RPC slots (under inflightMu): every counted subnet has between 1 and the
+// configured maximum of slots in use; acquire takes one slot unless the subnet is at the maximum;
+// release gives one back (and forgets the subnet at zero). Keys "" and a non-positive maximum
+// switch the limit off.
+//@ pred inflightInv(s *Syncer) = forall k string :: { k in s.inflightSubnet } k in s.inflightSubnet ==> 1 <= s.inflightSubnet[k] && s.inflightSubnet[k] <= s.config.MaxInflightRPCsPerSubnet
+//@ func (*Syncer).acquireInflight props C18
+//@   nopanic
+//@   assigns map:map[string]int
+//@   requires s != nil && s.inflightSubnet != nil && inflightInv(s)
+//@   ensures [inv] inflightInv(s)
+//@   ensures [off] key == "" || s.config.MaxInflightRPCsPerSubnet <= 0 ==> result && snapshot(s.inflightSubnet) == old(snapshot(s.inflightSubnet))
+//@   ensures [taken] key != "" && s.config.MaxInflightRPCsPerSubnet > 0 && result ==> s.inflightSubnet[key] == old(s.inflightSubnet[key]) + 1
+//@   ensures [full] key != "" && s.config.MaxInflightRPCsPerSubnet > 0 && !result ==> old(s.inflightSubnet[key]) >= s.config.MaxInflightRPCsPerSubnet && snapshot(s.inflightSubnet) == old(snapshot(s.inflightSubnet))
+//@   ensures [others] forall k string :: { k in s.inflightSubnet } k != key ==> ((k in s.inflightSubnet) <==> old(k in s.inflightSubnet)) && s.inflightSubnet[k] == old(s.inflightSubnet[k])
+//@ func (*Syncer).releaseInflight props C18
+//@   nopanic
+//@   assigns map:map[string]int
+//@   requires s != nil && s.inflightSubnet != nil && inflightInv(s)
+//@   requires [holds-slot] key != "" && s.config.MaxInflightRPCsPerSubnet > 0 ==> (key in s.inflightSubnet)
+//@   ensures [inv] inflightInv(s)
+//@   ensures [released] key != "" && s.config.MaxInflightRPCsPerSubnet > 0 ==> s.inflightSubnet[key] == old(s.inflightSubnet[key]) - 1 && ((key in s.inflightSubnet) <==> old(s.inflightSubnet[key]) > 1)
+//@   ensures [others] forall k string :: { k in s.inflightSubnet } k != key ==> ((k in s.inflightSubnet) <==> old(k in s.inflightSubnet)) && s.inflightSubnet[k] == old(s.inflightSubnet[k])
+//
+// runPeer: every per-peer slot taken by the blocking send on `inflight` is, within the same loop
+// iteration, either given back (subnet at its limit) or handed to exactly one handler goroutine;
+// the handler gives back the per-peer slot and the per-subnet slot on every exit, also when the
+// thread group refuses it. (held: per-peer slots taken by the loop and not yet given back or
+// handed over; the function value returned by ThreadGroup.Add is assumed to touch nothing the
+// contracts read. What is not shown: that the send blocks rather than drops -- it is a select with
+// no default and only tg.Done as alternative, visible in the code -- and anything about timing.)
+//@ func (*Peer).acceptRPC
+//@   assigns nothing
+//@ func (*Peer).Err
+//@   assigns nothing
+//@ func (*Peer).setErr
+//@   assigns nothing
+//@ func (*Syncer).subnetKey
+//@   assigns nothing
+//@ extern (*gateway.Stream).Close
+//@   assigns nothing
+//@ extern (*gateway.Stream).SetDeadline
+//@   assigns nothing
+//@ extern (*sync.Cond).Broadcast
+//@   assigns nothing
+//@ func (*Syncer).runPeer props C18
+//@   callbacks pure
+//@   requires s != nil && p != nil && s.tg != nil && s.log != nil && closeonly(s.tg.closed) && s.inflightSubnet != nil && inflightInv(s)
+//@   ghostvar held int
+//@   aftercall select : held = ite(selcase == 0, held + 1, held)
+//@   aftercall chan.recv : held = held - 1
+//@   aftercall go : held = held - 1
+//@   loop "for"
+//@     invariant [slots] held == 0
+//@     invariant [state] s == old(s) && s.tg == old(s.tg) && s.inflightSubnet != nil && inflightInv(s)
+//@ func (*Syncer).runPeer$2 props C18
+//@   callbacks pure
+//@   requires s != nil && s.tg != nil && s.log != nil && s.cm != nil && p != nil && stream != nil && closeonly(s.tg.closed) && s.inflightSubnet != nil && inflightInv(s)
+//@   requires [holds-slot] subnet != "" && s.config.MaxInflightRPCsPerSubnet > 0 ==> (subnet in s.inflightSubnet)
+//@   ensures [peer-slot-returned] called("chan.recv")
+//@   ensures [subnet-slot-returned] called("releaseInflight") && callarg("releaseInflight", 1) == subnet
